@@ -8,11 +8,13 @@
 (* lstrlib.c of Lua 5.1 where the manual is silent (posrelat; different    *)
 (* clamping of start and end; default of byte's j).                        *)
 (*                                                                         *)
-(* format covers %d %i %c %x %X %o %s %% with the flags - 0 + space #,     *)
+(* format covers %d %i %u %c %x %X %o %s %q %% and, for dyadic rationals,   *)
+(* %e %E %f %g %G with the flags - 0 + space #,                            *)
 (* width and precision, rendered digit by digit as ISO C printf defines.   *)
 (* Combinations ISO C leaves undefined or that depend on the platform      *)
-(* evaluate to Undef and are never judged.  Floating-point directives are  *)
-(* not modelled (Undef).                                                   *)
+(* evaluate to Undef and are never judged.  The floating-point directives  *)
+(* are defined for dyadic rationals and infinities only (exact decimal     *)
+(* expansion, round half even); NaN is Undef (sign is platform dependent). *)
 (***************************************************************************)
 EXTENDS Integers, Sequences, FiniteSets
 
@@ -153,7 +155,7 @@ FmtSigned(fl, w, pr, v) ==
 
 (* %x %X %o for v >= 0; + and space apply to signed conversions only *)
 FmtUnsigned(fl, w, pr, v, conv) ==
-    LET base == IF conv = 111 THEN 8 ELSE 16
+    LET base == IF conv = 111 THEN 8 ELSE IF conv = 117 THEN 10 ELSE 16
         d1 == WithPrec(pr, v, DigitsOf(v, base, conv = 88))
         d2 == IF conv = 111 /\ 35 \in fl /\ (d1 = <<>> \/ d1[1] # 48) THEN <<48>> \o d1 ELSE d1
         prefix == IF 35 \in fl /\ v # 0 /\ conv # 111 THEN <<48, conv>> ELSE <<>>
@@ -162,6 +164,126 @@ FmtUnsigned(fl, w, pr, v, conv) ==
 PadText(fl, w, t) ==
     LET fill == IF w > Len(t) THEN w - Len(t) ELSE 0
     IN IF 45 \in fl THEN t \o Spaces(fill) ELSE Spaces(fill) \o t
+
+-----------------------------------------------------------------------------
+(* %e %E %f %g %G of a dyadic rational, computed on the exact decimal      *)
+(* expansion (a dyadic rational has a finite one) with round-half-even on  *)
+(* the exact value, as a correctly rounding C library prints it.  Digit    *)
+(* sequences hold the values 0..9, most significant first.                 *)
+
+RECURSIVE NumDigits(_)
+NumDigits(v) == IF v < 10 THEN <<v>> ELSE Append(NumDigits(v \div 10), v % 10)      \* v >= 0
+
+RECURSIVE Dbl(_, _)
+Dbl(ds, carry) ==                       \* 2 * ds + carry
+    IF ds = <<>> THEN (IF carry = 0 THEN <<>> ELSE <<carry>>)
+    ELSE LET v == 2 * ds[Len(ds)] + carry
+         IN Append(Dbl(SubSeq(ds, 1, Len(ds) - 1), v \div 10), v % 10)
+RECURSIVE DblN(_, _)
+DblN(ds, n) == IF n = 0 THEN ds ELSE DblN(Dbl(ds, 0), n - 1)
+
+RECURSIVE Incr(_)
+Incr(ds) ==                             \* ds + 1 (may grow by one digit)
+    IF ds = <<>> THEN <<1>>
+    ELSE IF ds[Len(ds)] < 9 THEN Append(SubSeq(ds, 1, Len(ds) - 1), ds[Len(ds)] + 1)
+    ELSE Append(Incr(SubSeq(ds, 1, Len(ds) - 1)), 0)
+
+RECURSIVE FracDigitsV(_, _)
+FracDigitsV(r, den) ==                  \* digits of r/den, 0 <= r < den, den a power of 2
+    IF r = 0 THEN <<>>
+    ELSE <<(r * 10) \div den>> \o FracDigitsV((r * 10) % den, den)
+
+(* exact expansion of mag * 2^e, mag >= 0: [ip, fp] integer and fraction digits *)
+Expansion(mag, e) ==
+    IF e >= 0 THEN [ip |-> DblN(NumDigits(mag), e), fp |-> <<>>]
+    ELSE LET den == 2 ^ (-e)
+         IN [ip |-> NumDigits(mag \div den), fp |-> FracDigitsV(mag % den, den)]
+
+AllZero(ds) == \A k \in 1..Len(ds) : ds[k] = 0
+ZeroDigits(n) == [k \in 1..n |-> 0]
+(* keep the first n digits of ds (zero extended); round half-even by the rest *)
+RoundTo(ds, n) ==
+    LET ext == IF Len(ds) >= n THEN ds ELSE ds \o ZeroDigits(n - Len(ds))
+        kept == SubSeq(ext, 1, n)
+        rest == SubSeq(ext, n + 1, Len(ext))
+        up == /\ rest # <<>>
+              /\ \/ rest[1] > 5
+                 \/ rest[1] = 5 /\ ~AllZero(Tail(rest))
+                 \/ rest[1] = 5 /\ AllZero(Tail(rest)) /\ n > 0 /\ kept[n] % 2 = 1
+    IN IF up THEN Incr(kept) ELSE kept
+
+(* %f: [ip, fp] with exactly p fraction digits *)
+FixedParts(x, p) ==
+    LET all == RoundTo(x.ip \o x.fp, Len(x.ip) + p)
+        ni == Len(all) - p
+    IN [ip |-> SubSeq(all, 1, ni), fp |-> SubSeq(all, ni + 1, Len(all))]
+
+LeadingZeros(ds) == IF AllZero(ds) THEN Len(ds)
+                    ELSE (CHOOSE j \in 1..Len(ds) : ds[j] # 0 /\ \A i \in 1..(j - 1) : ds[i] = 0) - 1
+(* %e: [d, x]: p+1 significant digits and the decimal exponent *)
+SciParts(x, p) ==
+    LET all == x.ip \o x.fp
+        lz == LeadingZeros(all)
+    IN IF lz = Len(all) THEN [d |-> ZeroDigits(p + 1), x |-> 0]
+       ELSE LET sg == SubSeq(all, lz + 1, Len(all))
+                r == RoundTo(sg, p + 1)
+                ex == Len(x.ip) - lz - 1
+            IN IF Len(r) > p + 1 THEN [d |-> SubSeq(r, 1, p + 1), x |-> ex + 1]
+               ELSE [d |-> r, x |-> ex]
+
+Bytes(ds) == [k \in 1..Len(ds) |-> 48 + ds[k]]
+RECURSIVE StripZeros(_)
+StripZeros(ds) == IF ds # <<>> /\ ds[Len(ds)] = 0 THEN StripZeros(SubSeq(ds, 1, Len(ds) - 1)) ELSE ds
+
+FixedText(parts, alt) ==
+    Bytes(parts.ip) \o (IF parts.fp # <<>> \/ alt THEN <<46>> ELSE <<>>) \o Bytes(parts.fp)
+SciText(sp, alt, upper) ==
+    LET ax == IF sp.x < 0 THEN -sp.x ELSE sp.x
+        xd == IF ax < 10 THEN <<0>> \o NumDigits(ax) ELSE NumDigits(ax)
+        fr == Tail(sp.d)
+    IN <<48 + sp.d[1]>> \o (IF fr # <<>> \/ alt THEN <<46>> ELSE <<>>) \o Bytes(fr)
+       \o <<IF upper THEN 69 ELSE 101, IF sp.x < 0 THEN 45 ELSE 43>> \o Bytes(xd)
+
+(* the unsigned text of conversion c (e E f g G) for the expansion x *)
+FloatBody(c, fl, pr, x) ==
+    LET alt == 35 \in fl
+        upper == c \in {69, 71}
+    IN CASE c = 102 -> FixedText(FixedParts(x, IF pr < 0 THEN 6 ELSE pr), alt)
+         [] c \in {101, 69} -> SciText(SciParts(x, IF pr < 0 THEN 6 ELSE pr), alt, upper)
+         [] OTHER ->                                                     \* g G
+              (LET P == IF pr < 0 THEN 6 ELSE IF pr = 0 THEN 1 ELSE pr
+                   sp == SciParts(x, P - 1)
+               IN IF sp.x < -4 \/ sp.x >= P
+                  THEN SciText(IF alt THEN sp ELSE [sp EXCEPT !.d = <<sp.d[1]>> \o StripZeros(Tail(sp.d))], alt, upper)
+                  ELSE LET fp == FixedParts(x, P - 1 - sp.x)
+                       IN FixedText(IF alt THEN fp ELSE [fp EXCEPT !.fp = StripZeros(fp.fp)], alt))
+
+(* sign and field: for the floating conversions the 0 flag pads with zeros *)
+(* whatever the precision; an infinity is padded with blanks only          *)
+PadFloat(fl, w, sign, body, zeroOK) ==
+    LET n == Len(sign) + Len(body)
+        fill == IF w > n THEN w - n ELSE 0
+    IN IF 45 \in fl THEN sign \o body \o Spaces(fill)
+       ELSE IF 48 \in fl /\ zeroOK THEN sign \o Zeros(fill) \o body
+       ELSE Spaces(fill) \o sign \o body
+
+(* flt = <<"fin", neg, mag, e>> (value (-1)^neg * mag * 2^e) or <<"inf", neg>> *)
+FmtFloat(c, fl, w, pr, flt) ==
+    LET neg == flt[2]
+        sign == IF neg THEN <<45>> ELSE IF 43 \in fl THEN <<43>> ELSE IF 32 \in fl THEN <<32>> ELSE <<>>
+    IN IF flt[1] = "inf"
+       THEN PadFloat(fl, w, sign, IF c \in {69, 71} THEN <<73, 78, 70>> ELSE <<105, 110, 102>>, FALSE)
+       ELSE PadFloat(fl, w, sign, FloatBody(c, fl, pr, Expansion(flt[3], flt[4])), TRUE)
+
+(* %q as lstrlib.c addquoted: flags, width and precision are ignored *)
+RECURSIVE QuoteBody(_)
+QuoteBody(s) ==
+    IF s = <<>> THEN <<>>
+    ELSE (CASE s[1] \in {34, 92, 10} -> <<92, s[1]>>
+            [] s[1] = 13 -> <<92, 114>>
+            [] s[1] = 0 -> <<92, 48, 48, 48>>
+            [] OTHER -> <<s[1]>>) \o QuoteBody(Tail(s))
+QuoteLua(s) == <<34>> \o QuoteBody(s) \o <<34>>
 
 (* Results of one directive / of format: <<"ok", bytes>>, <<"err">>,       *)
 (* <<"undef">> (ISO C undefined, platform dependent or not modelled)       *)
@@ -173,9 +295,11 @@ FUndef == <<"undef">>
 (*   num = <<"ok", v>> the argument converted to a C long (truncated),     *)
 (*         <<"err">> not a number, <<"undef">> conversion not modelled     *)
 (*   str = <<"ok", bytes>> the argument converted to a string, or err/undef*)
+(*   flt = <<"ok", <<"fin", neg, mag, e>>>> / <<"ok", <<"inf", neg>>>> the *)
+(*         argument as a double, or err/undef                              *)
 (* a directive whose conversion character is missing (format ends) is an   *)
 (* invalid option as well (conv = 0).                                      *)
-FmtDirective(d, num, str) ==
+FmtDirective(d, num, str, flt) ==
     LET fl == d.flags
         c == d.conv
     IN CASE c \in {100, 105} ->                                   \* d i
@@ -197,24 +321,32 @@ FmtDirective(d, num, str) ==
                ELSE IF Len(str[2]) >= 100 THEN FUndef
                ELSE LET t == IF d.prec >= 0 THEN SubSeq(str[2], 1, SMin(d.prec, Len(str[2]))) ELSE str[2]
                     IN FOk(PadText(fl, d.width, t)))
-         [] c \in {117, 101, 69, 102, 103, 71, 113} -> FUndef      \* u e E f g G q
+         [] c = 117 ->                                             \* u
+              (IF num[1] # "ok" THEN num
+               ELSE IF num[2] < 0 \/ 35 \in fl THEN FUndef
+               ELSE FOk(FmtUnsigned(fl, d.width, d.prec, num[2], c)))
+         [] c \in {101, 69, 102, 103, 71} ->                        \* e E f g G
+              (IF flt[1] # "ok" THEN flt
+               ELSE FOk(FmtFloat(c, fl, d.width, d.prec, flt[2])))
+         [] c = 113 ->                                             \* q
+              (IF str[1] # "ok" THEN str ELSE FOk(QuoteLua(str[2])))
          [] OTHER -> FErr                                          \* invalid option
 
 (* string.format(f, args...): nums[k], strs[k] are the two views of the    *)
 (* k-th extra argument; a missing argument is an error.                    *)
 ArgView(vs, k) == IF k <= Len(vs) THEN vs[k] ELSE FErr
 
-RECURSIVE FormatFrom(_, _, _, _, _, _)
-FormatFrom(f, p, ai, acc, nums, strs) ==
+RECURSIVE FormatFrom(_, _, _, _, _, _, _)
+FormatFrom(f, p, ai, acc, nums, strs, flts) ==
     IF p > Len(f) THEN FOk(acc)
-    ELSE IF f[p] # 37 THEN FormatFrom(f, p + 1, ai, Append(acc, f[p]), nums, strs)
+    ELSE IF f[p] # 37 THEN FormatFrom(f, p + 1, ai, Append(acc, f[p]), nums, strs, flts)
     ELSE IF p + 1 <= Len(f) /\ f[p + 1] = 37
-         THEN FormatFrom(f, p + 2, ai, Append(acc, 37), nums, strs)
+         THEN FormatFrom(f, p + 2, ai, Append(acc, 37), nums, strs, flts)
     ELSE LET d == ScanDirective(f, p + 1) IN
          IF d.bad THEN FErr
-         ELSE LET r == FmtDirective(d, ArgView(nums, ai), ArgView(strs, ai)) IN
+         ELSE LET r == FmtDirective(d, ArgView(nums, ai), ArgView(strs, ai), ArgView(flts, ai)) IN
               IF r[1] # "ok" THEN r
-              ELSE FormatFrom(f, d.next, ai + 1, acc \o r[2], nums, strs)
+              ELSE FormatFrom(f, d.next, ai + 1, acc \o r[2], nums, strs, flts)
 
-Format(f, nums, strs) == FormatFrom(f, 1, 1, <<>>, nums, strs)
+Format(f, nums, strs, flts) == FormatFrom(f, 1, 1, <<>>, nums, strs, flts)
 =============================================================================
